@@ -205,7 +205,7 @@ func census(repo string, pkgs []*packages.Package) {
 					if sel, ok := x.Fun.(*ast.SelectorExpr); ok {
 						if obj := p.TypesInfo.Uses[sel.Sel]; obj != nil && obj.Pkg() != nil {
 							switch obj.Pkg().Path() + "." + obj.Name() {
-							case "time.Now", "time.Since", "time.Until":
+							case "time.Now", "time.Since", "time.Until", "time.AfterFunc", "time.NewTimer", "time.After", "time.Tick", "time.NewTicker", "time.Sleep":
 								timeNow = append(timeNow, Site{r, p.Fset.Position(x.Pos()).Line, fun, obj.Pkg().Path() + "." + obj.Name()})
 							case "os.Getenv", "os.LookupEnv":
 								getenv = append(getenv, Site{r, p.Fset.Position(x.Pos()).Line, fun, obj.Name()})
